@@ -328,6 +328,7 @@ package pubsub
 //@   ensures result.mtx != nil && result.nfront != nil && result.nback != nil && result.updates != nil && result.nfront != result.nback && result.nfront != result.updates && result.nback != result.updates && result.closed == false && result.tracker == nil && len(result.view) == 0
 //@   ghostset result.view = []
 //@   ghostset result.root.guard = result.mtx
+//@   ensures result.root.guard == result.mtx && allocated(result.root)
 
 // addAfter: the sequential push. Closed: ErrQueueClosed; tracker refuses: that
 // error; both without effect. Otherwise the new element is spliced in after
@@ -639,3 +640,48 @@ package pubsub
 //@   props C06 C07 C13 C20
 //@   requires it != nil && (it.root || it.list != nil)
 //@   ensures result == (it.root || it == it.list.root)
+
+// ---------------------------------------------------------------------------
+// Constructors: valid options produce a tracker satisfying the tracker
+// invariant (so the queue / deque invariants are established, not assumed).
+// ---------------------------------------------------------------------------
+
+//@ func (*QueueOptions).Validate
+//@   props C05 C06
+//@   requires opts != nil
+//@   modifies opts.SoftQuota, opts.BurstCredit
+//@   ensures ok: result == nil ==> 1 <= opts.SoftQuota && opts.SoftQuota <= opts.HardLimit && opts.BurstCredit >= 0.0 && opts.HardLimit == old(opts.HardLimit)
+//@   ensures bad: result != nil ==> old(opts.HardLimit) <= 0 || old(opts.HardLimit) < old(opts.SoftQuota) || old(opts.BurstCredit) < 0.0
+//@   ensures good: !(old(opts.HardLimit) <= 0 || old(opts.HardLimit) < old(opts.SoftQuota) || old(opts.BurstCredit) < 0.0) ==> result == nil
+
+//@ func newQueueLimitTracker
+//@   props C05 C06
+//@   requires 1 <= opts.SoftQuota && opts.SoftQuota <= opts.HardLimit && opts.BurstCredit >= 0.0
+//@   ensures fresh(result) && isQuota(result) && tinv(result) && tlen(result) == 0 && tcap(result) >= 1
+
+//@ func NewQueue
+//@   props C05
+//@   ensures result1 == nil ==> result0 != nil && qinv(result0) && fresh(result0) && len(result0.view) == 0 && !result0.closed && isQuota(result0.tracker)
+//@   ensures result1 != nil ==> result0 == nil
+
+//@ func NewUnlimitedQueue
+//@   props C05
+//@   ensures qinv(result) && fresh(result) && len(result.view) == 0 && !result.closed && isNoLimit(result.tracker)
+
+//@ func (*DequeOptions).Validate
+//@   props C06
+//@   requires opts != nil
+//@   modifies opts.Capacity, QueueOptions.SoftQuota, QueueOptions.BurstCredit
+//@   ensures ok: result == nil ==> (opts.QueueOptions != nil ? (opts.Capacity <= 0 && !opts.Unlimited && 1 <= opts.QueueOptions.SoftQuota && opts.QueueOptions.SoftQuota <= opts.QueueOptions.HardLimit && opts.QueueOptions.BurstCredit >= 0.0) : ((opts.Unlimited && opts.Capacity == 0) || (!opts.Unlimited && opts.Capacity >= 1)))
+
+// NewDeque: valid options give a well-formed empty deque whose tracker is one
+// of the three kinds with capacity >= 1 (so the lock invariant holds from the
+// start).
+//@ func NewDeque
+//@   props C06
+//@   option noframe
+//@   ghostset cast(result0.tracker, "*queueNoLimitTrackerImpl").guard = result0.mtx
+//@   ghostset cast(result0.tracker, "*queueHardLimitTracker").guard = result0.mtx
+//@   ghostset cast(result0.tracker, "*queueLimitTrackerImpl").guard = result0.mtx
+//@   ensures result1 == nil ==> result0 != nil && fresh(result0) && dqinv(result0) && len(result0.view) == 0 && !result0.closed && result0.mtx != nil
+//@   ensures result1 != nil ==> result0 == nil
